@@ -68,7 +68,12 @@ Arguments Err {A} e.
 Record config := mkCfg {
   cfg_limit : N;         (* Config.StateHistory, 0 = keep everything *)
   cfg_full : bool;       (* buffer.full(): WriteBufferSize 0 (true) / huge (false) *)
-  cfg_maxdiff : nat }.   (* maxDiffLayers *)
+  cfg_maxdiff : nat;     (* maxDiffLayers *)
+  (* legacy flags: true = the code before the two repairs found by C18 (kept for the
+     refutation witnesses); the correspondence runs with both false *)
+  cfg_legacy_meta : bool;    (* indexSingle rejects absent index metadata *)
+  cfg_legacy_reader : bool;  (* HistoricalStateReader does not re-validate its root *)
+  cfg_legacy_initer : bool }. (* indexIniter.run compares the progress with the NEW target *)
 
 (* diskLayer + its write buffer + the persistent key-value state *)
 Record disk := mkDisk {
@@ -193,9 +198,10 @@ Fixpoint ix_fold (f : (key -> list N) -> key -> N -> res (key -> list N))
   | k :: r => match f idx k id with Ok i' => ix_fold f i' r id | Err e => Err e end
   end.
 
-(* indexSingle *)
-Definition index_single (f : frz) (x : indexer) (id : N) : res indexer :=
-  match ix_meta x with
+(* indexSingle.  Absent metadata (deleted by unindexSingle of history 1) counts as
+   "nothing indexed" -- before the repair it was an error. *)
+Definition index_single (legacy : bool) (f : frz) (x : indexer) (id : N) : res indexer :=
+  match (match ix_meta x with Some m => Some m | None => if legacy then None else Some 0 end) with
   | Some m =>
       if m + 1 =? id then
         match read_history f id with
@@ -292,16 +298,19 @@ Definition ix_bg_finish (f : frz) (x : indexer) : indexer :=
       else x'
   end.
 
-(* indexIniter.run, case signal := <-i.interrupt.  i.last is stored BEFORE
-   checkDone is evaluated (history_indexer.go l.471 vs l.489). *)
-Definition ix_signal (f : frz) (x : indexer) (newLast : N) : indexer * option err :=
+(* indexIniter.run, case signal := <-i.interrupt.  i.last is stored BEFORE the progress
+   is examined; the legacy code then called checkDone(), i.e. compared the metadata
+   with the NEW target and unindexed a history that was never indexed; the repaired
+   code compares with the old target. *)
+Definition ix_signal (legacy : bool) (f : frz) (x : indexer) (newLast : N) : indexer * option err :=
   let old := ix_last x in
   if negb ((newLast =? old + 1) || (newLast + 1 =? old)) then (x, Some EIndexRange) else
   let x1 := mkIx (ix_done x) (ix_dead x) newLast (ix_meta x) (ix_bg x) (ix_index x) in
   if newLast =? old + 1 then (x1, None) else
   (* shortened: interrupt the background call and wait for it (modelled: it completes) *)
   let x2 := match ix_bg x1 with Some c => ix_bg_body f x1 c | None => x1 end in
-  if ix_check_done x2 then
+  if (if legacy then ix_check_done x2
+      else match ix_meta x2 with Some m => m =? old | None => false end) then
     match unindex_single f x2 old with
     | Err e => (mkIx false true (ix_last x2) (ix_meta x2) None (ix_index x2), Some e)
     | Ok x3 => (mkIx true false (ix_last x3) (ix_meta x3) None (ix_index x3), None)
@@ -309,18 +318,18 @@ Definition ix_signal (f : frz) (x : indexer) (newLast : N) : indexer * option er
   else (x2, None).
 
 (* historyIndexer.extend *)
-Definition ix_extend (f : frz) (x : indexer) (id : N) : indexer * option err :=
+Definition ix_extend (legacy linit : bool) (f : frz) (x : indexer) (id : N) : indexer * option err :=
   if ix_done x then
-    match index_single f x id with Ok x' => (x', None) | Err e => (x, Some e) end
+    match index_single legacy f x id with Ok x' => (x', None) | Err e => (x, Some e) end
   else if ix_dead x then (x, Some EIndexDead)       (* blocks forever *)
-  else ix_signal f x id.
+  else ix_signal linit f x id.
 
 (* historyIndexer.shorten *)
-Definition ix_shorten (f : frz) (x : indexer) (id : N) : indexer * option err :=
+Definition ix_shorten (linit : bool) (f : frz) (x : indexer) (id : N) : indexer * option err :=
   if ix_done x then
     match unindex_single f x id with Ok x' => (x', None) | Err e => (x, Some e) end
   else if ix_dead x then (x, Some EIndexDead)
-  else ix_signal f x (id - 1).
+  else ix_signal linit f x (id - 1).
 
 (* indexPruner (asynchronous): for one key, drop the ids below [cut]; it never cuts
    above the first retained history *)
@@ -348,7 +357,7 @@ Definition write_history (st : db) (d : diff) : wh :=
   (* indexer.extend *)
   let r := match ix st1 with
            | None => (None, None)
-           | Some x => let (x', e) := ix_extend f1 x id in (Some x', e)
+           | Some x => let (x', e) := ix_extend (cfg_legacy_meta (cfg st)) (cfg_legacy_initer (cfg st)) f1 x id in (Some x', e)
            end in
   match snd r with
   | Some e => WFail e (set_ix st1 (fst r))
@@ -498,7 +507,7 @@ Definition revert (st : db) (h : history) : out :=
   (* execute.apply: trie side not modelled *)
   let r := match ix st with
            | None => (None, None)
-           | Some x => let (x', e) := ix_shorten (fr st) x (disk_id o) in (Some x', e)
+           | Some x => let (x', e) := ix_shorten (cfg_legacy_initer (cfg st)) (fr st) x (disk_id o) in (Some x', e)
            end in
   match snd r with
   | Some e => Fail e (set_ix st (fst r))       (* the disk layer was marked stale *)
@@ -577,8 +586,11 @@ Definition h_lookup (h : history) (k : key) : res N :=
               else Err ENotFound
   end.
 
-(* Database.HistoricReader(root): the reader only remembers the state id *)
-Definition historic_reader (st : db) (root : N) : res N :=
+(* HistoricalStateReader: the state id and (since the repair) the root *)
+Record hreader := mkRd { rd_id : N; rd_root : N }.
+
+(* Database.HistoricReader(root) *)
+Definition historic_reader (st : db) (root : N) : res hreader :=
   match ix st with
   | None => Err ENoIndexer
   | Some x =>
@@ -588,17 +600,30 @@ Definition historic_reader (st : db) (root : N) : res N :=
       | Some id =>
           match fr_read (fr st) (id + 1) with
           | None => Err EPruned
-          | Some h => if h_parent h =? root then Ok id else Err ENotCanonical
+          | Some h => if h_parent h =? root then Ok (mkRd id root) else Err ENotCanonical
           end
       end
   end.
 
-(* HistoricalStateReader.AccountRLP / Storage with a fresh index reader:
-   checkStateAvail, readGreaterThan, then the original value of that history *)
-Definition reader_read (st : db) (id : N) (k : key) : res N :=
+(* HistoricalStateReader.verify (the repair): the history after the remembered id must
+   still exist and start from the remembered root *)
+Definition reader_verify (st : db) (rd : hreader) : option err :=
+  if cfg_legacy_reader (cfg st) then None else
+  match fr_read (fr st) (rd_id rd + 1) with
+  | None => Some EPruned
+  | Some h => if h_parent h =? rd_root rd then None else Some ENotCanonical
+  end.
+
+(* HistoricalStateReader.AccountRLP / Storage (a fresh index reader per read):
+   verify, checkStateAvail, readGreaterThan, then the original value of that history *)
+Definition reader_read (st : db) (rd : hreader) (k : key) : res N :=
   match ix st with
   | None => Err ENoIndexer
   | Some x =>
+      match reader_verify st rd with
+      | Some e => Err e
+      | None =>
+      let id := rd_id rd in
       let lastID := disk_id (dk st) in
       let latest := eff (dk st) k in
       if id <? fr_tail (fr st) then Err EPruned else
@@ -616,11 +641,12 @@ Definition reader_read (st : db) (id : N) (k : key) : res N :=
               end
           end
       end
+      end
   end.
 
 (* reader created and used in one step *)
 Definition hist_read (st : db) (root : N) (k : key) : res N :=
   match historic_reader st root with
   | Err e => Err e
-  | Ok id => reader_read st id k
+  | Ok rd => reader_read st rd k
   end.
